@@ -1147,6 +1147,10 @@ func (in *Interp) chanSend(c *ChanV, v Value) bool {
 		return false
 	}
 	c.Buf = append(append([]Value{}, c.Buf...), v)
+	if p, ok := v.(*Ptr); ok && p != nil {
+		// the object now belongs to whoever receives it next (free lists built on buffered channels)
+		in.Ghost["poolreleased:"+ptrKey(p)] = true
+	}
 	return true
 }
 
@@ -1161,6 +1165,9 @@ func (in *Interp) chanRecv(c *ChanV, t types.Type, commaOk bool) (Value, bool) {
 	case len(c.Buf) > 0:
 		v = c.Buf[0]
 		c.Buf = append([]Value{}, c.Buf[1:]...)
+		if p, ok := v.(*Ptr); ok && p != nil {
+			delete(in.Ghost, "poolreleased:"+ptrKey(p))
+		}
 	case c.Closed:
 		v, okv = zeroValue(elem), smt.False
 	default:
